@@ -507,14 +507,20 @@ where
                     )?;
                     self.private_key =
                         Some(PrivateKey::Symmetric(private_key));
-                    self.vault_meta().await
                 }
                 AccessKey::Identity(id) => {
                     self.private_key =
                         Some(PrivateKey::Asymmetric(id.clone()));
-                    self.vault_meta().await
                 }
             }
+            // A key that does not decrypt the vault meta data
+            // must not stay installed otherwise the vault could
+            // be written to using the wrong key
+            let result = self.vault_meta().await;
+            if result.is_err() {
+                self.private_key = None;
+            }
+            result
         } else {
             Err(Error::VaultNotInit.into())
         }
